@@ -48,8 +48,12 @@ func NewFileCache[MetadataT any](cfg *config.Config, rootDir string, maxCacheSiz
 		maxCacheSize:    atomics.NewInt64(maxCacheSize),
 	}
 
-	c.subs.Add(cfg.Cache.MaxCacheSize.OnChange(func(newSize bytesize.ByteSize) {
-		c.maxCacheSize.Set(newSize.Bytes())
+	// Change notifications are delivered asynchronously and can arrive out of order: follow the
+	// current setting (read under the lock), not the value a particular notification carries.
+	c.subs.Add(cfg.Cache.MaxCacheSize.OnChange(func(bytesize.ByteSize) {
+		c.mu.Lock()
+		defer c.mu.Unlock()
+		c.maxCacheSize.Set(cfg.Cache.MaxCacheSize.Read().Bytes())
 	}))
 
 	c.janitor = newCacheJanitor(cfg, cleanupInterval, cacheFunctions[MetadataT]{
